@@ -145,6 +145,8 @@ def check_find_clashes(residues, tag="", options=None):
 
 NUC_NAMES = atomtab.NUC_ATOMS["backbone"] + atomtab.NUC_ATOMS["G"]
 AA_NAMES = ["N", "CA", "C", "O", "CB", "OXT", "SG", "H1", "FE", "MG", "ZN", "CL", "NA", "SE", "1HB",
+            # phosphorus atoms of ligands, caps and cofactors (GTP, 2BA, CCC): P by type, not by the name 'P'
+            "PA", "PB", "PG", "P1", "PC", "O1A", "O3B", "N3A",
             # names longer than the four PDB columns (builder / MD output for large ligands, legal in mmCIF) that agree in
             # their first four characters
             "C1001", "C1002", "O1001", "O1002", "N1001"]
